@@ -24,12 +24,12 @@ import vlib
 
 THEOREMS = [
     "replay_append_prefix", "replay_append_txn",
-    "crash_atomic_partial", "crash_atomic_unsound",
+    "crash_atomic", "crash_atomic_partial", "crash_atomic_torn_regression",
     "crash_durable", "recover_idempotent_partial",
-    "recover_after_rename", "recover_idempotent", "recover_recover",
+    "recover_after_rename", "recover_idempotent", "recover_recover", "recover_clears_shadow",
     "vacuum_crash_harmless",
-    "lost_rename_right_after_recovery", "lost_rename_durable_unsound",
-    "post_recovery_accepts_insert", "post_recovery_accepts_unsound",
+    "lost_rename_right_after_rename", "lost_rename_after_recovery", "lost_rename_regression",
+    "post_recovery_accepts_insert", "post_recovery_accepts_dv", "post_recovery_accepts_regression",
 ]
 
 CORPUS = os.path.join(vlib.VERIF, "corpus", "C04", "workloads.txt")
@@ -73,6 +73,12 @@ def canon_impl_steps(steps, dvmap):
             out.append("create " + t[1])
         elif t[0] == "truncate":
             out.append("create " + t[1])
+        elif t[0] == "other" and t[1] == "unlink":
+            m = re.match(r"dv/(\d+)_(\d+)_(\d+)\.dv", t[2])
+            name = t[2]
+            if m:
+                name = "dv/%s_%s_%s.dv" % (m.group(1), m.group(2), dvmap.get(m.groups(), m.group(3)))
+            out.append("unlink " + name)
         elif t[0] == "append":
             recs = s.split(" recs ")[1].split(" lens ")[0] if " recs " in s else ""
             out.append("append %s %s" % (t[1], canon_recs(recs, dvmap)))
@@ -84,7 +90,7 @@ def canon_impl_steps(steps, dvmap):
 def sort_dv_runs(steps):
     out, run = [], []
     for s in steps + [None]:
-        if s is not None and (s.startswith("create dv/") or s.startswith("rmdir ")):
+        if s is not None and (s.startswith("create dv/") or s.startswith("rmdir ") or s.startswith("unlink dv/")):
             run.append(s)
         else:
             out += sorted(run)
@@ -97,8 +103,8 @@ def sort_dv_runs(steps):
 def canon_model_steps(steps):
     out = []
     for s in steps:
-        if s == "mkdir ." or not s:
-            continue
+        if s == "mkdir ." or s == "syncdir" or not s:
+            continue    # (the directory fsync changes nothing the snapshots can see)
         t = s.split()
         if t[0] == "append":
             out.append("append %s %s" % (t[1], canon_recs(t[2] if len(t) > 2 else "")))
